@@ -405,8 +405,11 @@ fn coherent<T: Sc>(rs: &RunSpec<T>, fo: &FitOut<T>) -> bool {
             }
             let e = wi * (rs.y[(i, q)].to64() - fit);
             let g = r[q * n + i].to64();
-            if !e.is_finite() || !g.is_finite() {
-                return true;
+            if !e.is_finite() {
+                return true; // the data themselves are not finite here: judged elsewhere
+            }
+            if !g.is_finite() {
+                return false; // a non-finite residual where a finite one is due
             }
             scale = scale.max(mag);
             worst = worst.max((g - e).abs());
